@@ -136,7 +136,15 @@ EXPORT errno_t _mbstowcs_s_chk(size_t *restrict retvalp, wchar_t *restrict dest,
 
     CHK_SRC_NULL("mbstowcs_s", retvalp)
     *retvalp = 0;
-    CHK_SRCW_NULL_CLEAR("mbstowcs_s", src)
+    if (unlikely(src == NULL)) {
+        if (dest) {
+            handle_werror(dest, dmax, "mbstowcs_s: src is null", ESNULLP);
+        } else { /* nothing to clear */
+            invoke_safe_str_constraint_handler("mbstowcs_s: src is null", NULL,
+                                               ESNULLP);
+        }
+        return RCNEGATE(ESNULLP);
+    }
     if (dest) {
         /* string literals also have the ending \0 */
         size_t destsz = dmax * sizeof(wchar_t);
